@@ -112,6 +112,8 @@ end
 structure RepData2 (ops : HeapOps H) extends RepData ops where
   /-- the element cells of the vector a machine value denotes (vector payloads are opaque in `Machine.lean`) -/
   vecElems : H → VCell → Option (List VCell)
+  /-- the object at a heap address is a lexical environment (what ENTER requires of a closure's environment) -/
+  envOK : H → Nat → Prop
   /-- the sources of the environment map of the lambda object at a heap address -/
   lamSrcs : H → Nat → Option (List RSrc)
   /-- heap address of the lambda with a given index in the compiler's table -/
@@ -159,7 +161,8 @@ def ClosOK (D : RepData2 ops) (W : World) (h : H) (lam cenv : Nat) (ps : List Te
     p.ctx.envmap = argEntries ps ++ caps ∧ (∀ q ∈ caps, q.2 = .iofEnvironment) ∧
     (∀ j, j < p.ctx.envmap.length → ∃ g, ops.envGet h cenv j = some g) ∧
     (∀ j x, ps.length ≤ j → p.ctx.envmap[j]? = some (x, .iofEnvironment) →
-      ∃ e n l, ops.envGet h cenv j = some (.lexEnvPtr e n) ∧ ρc.lookup x = some l ∧ W e n l)
+      ∃ e n l, ops.envGet h cenv j = some (.lexEnvPtr e n) ∧ ρc.lookup x = some l ∧ W e n l) ∧
+    D.envOK h cenv
 
 /-- machine value `v` represents `w` -/
 def VR2 (D : RepData2 ops) (W : World) (h : H) (S : Array Cell) (v : VCell) : Val → Prop
@@ -207,6 +210,7 @@ structure Ext2 (D : RepData2 ops) (h : H) (S : Array Cell) (h' : H) (S' : Array 
   code : ∀ l, ops.isLambda h l = true → ops.isLambda h' l = true ∧ (∀ o, ops.fetch h' l o = ops.fetch h l o) ∧
     ops.lambdaInfo h' l = ops.lambdaInfo h l ∧ D.lamSrcs h' l = D.lamSrcs h l
   clos : ∀ v l e, ops.callee h v = .closure l e → ops.callee h' v = .closure l e
+  envOK : ∀ e, D.envOK h e → D.envOK h' e
   envPtr : ∀ e k a b, ops.envGet h e k = some (.lexEnvPtr a b) → ops.envGet h' e k = some (.lexEnvPtr a b)
   envVal : ∀ e k v, ops.envGet h e k = some v → isEnvPtr v = false →
     ∃ v', ops.envGet h' e k = some v' ∧ isEnvPtr v' = false
@@ -278,11 +282,11 @@ structure Laws2 (D : RepData2 ops) : Prop where
       ops.callee h' (.ptr p) = .closure lam cenv ∧ (∀ k, ops.envGet h cenv k = none) ∧
       (∀ (j : Nat) src, srcs[j]? = some src → ops.envGet h' cenv j = some (cloSlot ops h ep src)) ∧
       (∀ e k, e ≠ cenv → ops.envGet h' e k = ops.envGet h e k) ∧
-      (∀ m, ops.globGet h' m = ops.globGet h m) ∧ Ext2 D h S h' S ∧ D.SRx h' S
+      (∀ m, ops.globGet h' m = ops.globGet h m) ∧ Ext2 D h S h' S ∧ D.SRx h' S ∧ D.envOK h' cenv
   /-- ENTER of a closure: arguments from the stack, captured entries copied from the closure environment -/
   activation_ok : ∀ h S lam cenv bp (st : Stack) (srcs : List RSrc) nargs, D.SRx h S → ops.isLambda h lam = true →
     D.lamSrcs h lam = some srcs → ops.lambdaInfo h lam = some ⟨nargs⟩ →
-    (∃ v, ops.callee h v = .closure lam cenv) →
+    D.envOK h cenv →
     (∀ (j : Nat) src, srcs[j]? = some src → ∃ g, ops.envGet h cenv j = some g) →
     (∀ (j : Nat) i, srcs[j]? = some (RSrc.arg i) → i < nargs ∧ nargs - i ≤ bp ∧ bp - (nargs - i) + 1 < st.cells.length) →
     ∃ h' a, ops.makeActivation h lam cenv bp st = .ok (h', a) ∧ (∀ k, ops.envGet h a k = none) ∧
